@@ -22,6 +22,7 @@ type tapeReader struct {
 	d     uint32
 	last  *big.Int // the bytes of the last Read as a little-endian integer
 	bad   bool     // a Read whose length is not a multiple of 4
+	reads int      // number of Read calls
 }
 
 func (t *tapeReader) Read(p []byte) (int, error) {
@@ -30,6 +31,7 @@ func (t *tapeReader) Read(p []byte) (int, error) {
 	if len(p)%4 != 0 {
 		t.bad = true
 	}
+	t.reads++
 	for i := 0; i+4 <= len(p); i += 4 {
 		w := t.d
 		if t.pos < len(t.words) {
@@ -73,7 +75,7 @@ func ctxFor(cancelled bool) context.Context {
 	return ctx
 }
 
-// rand.intn: args n cancelled default [tape]; outs class value consumed lastword
+// rand.intn: args n cancelled default [tape]; outs class value consumed lastword reads
 func caseIntn(tags string, n int64, cancelled bool, d uint32, words []uint32) {
 	var v int
 	var err error
@@ -96,10 +98,10 @@ func caseIntn(tags string, n int64, cancelled bool, d uint32, words []uint32) {
 		cls = 9
 	}
 	w.Case("rand.intn", tags, lib.V(lib.I(n), lib.Bool(cancelled), lib.U(uint64(d)), wordsStr(words)),
-		lib.V(lib.I(int64(cls)), lib.I(int64(v)), lib.I(int64(t.pos)), t.last.String()))
+		lib.V(lib.I(int64(cls)), lib.I(int64(v)), lib.I(int64(t.pos)), t.last.String(), lib.I(int64(t.reads))))
 }
 
-// rand.sample: args k n cancelled default [tape]; outs class k' [[dst src]...] consumed
+// rand.sample: args k n cancelled default [tape]; outs class k' [[dst src]...] consumed reads
 func caseSample(tags string, k, n int64, cancelled bool, d uint32, words []uint32) {
 	var kk int
 	var err error
@@ -125,7 +127,7 @@ func caseSample(tags string, k, n int64, cancelled bool, d uint32, words []uint3
 		cls = 9
 	}
 	w.Case("rand.sample", tags, lib.V(lib.I(k), lib.I(n), lib.Bool(cancelled), lib.U(uint64(d)), wordsStr(words)),
-		lib.V(lib.I(int64(cls)), lib.I(int64(kk)), lib.L(picks...), lib.I(int64(t.pos))))
+		lib.V(lib.I(int64(cls)), lib.I(int64(kk)), lib.L(picks...), lib.I(int64(t.pos)), lib.I(int64(t.reads))))
 }
 
 // ---- generators ----
